@@ -95,6 +95,9 @@ func (r *Result) Absorb(o *Result) {
 	if n == 0 {
 		n = 1
 	}
+	if n < 0 {
+		n = 0 // a point that was skipped (budget): not an execution
+	}
 	r.Executions += n
 	r.Steps += o.Steps
 	r.SimTime += o.SimTime
